@@ -191,7 +191,11 @@ func (v *LV) Build(r *Rng) any {
 			}
 			return out
 		}
-		out := make([]any, len(v.A), len(v.A)+int(v.I)) // I: spare capacity of the backing array
+		spare := int(v.I) // I: spare capacity of the backing array
+		if r != nil && spare > 0 {
+			spare = r.Intn(2 * spare) // equal values, differently constructed: capacity is not part of the value
+		}
+		out := make([]any, len(v.A), len(v.A)+spare)
 		for i, x := range v.A {
 			out[i] = x.Build(r)
 		}
@@ -292,6 +296,7 @@ func (v *LV) Build(r *Rng) any {
 var words = []string{"a", "b", "c", "apple", "Banana", "cherry", "x y", "é", "日本", "10", "2", "", " pad ", "<b>T</b>", "a,b,c", "Z", "line1\nline2", "&amp;",
 	// one word per length 6..13: filters with numeric thresholds (truncate, slice, truncatewords) need inputs on both sides of every threshold
 	// date strings in several of the layouts the library recognises
+	"today", "Now", "NOW", "tomorrow", // NOT the exact word "now": only that one may read the clock
 	"2017-07-09", "March 3, 2021", "2020-02-29 12:00", "02 Jan 2006", "Mon, 02 Jan 2006 15:04:05 -0700",
 	"abcdef", "seven 7", longWord, longMulti, "eight ch", "123456789", "ten chars.", "hello world", "twelve chars", "one two three"}
 var longWord = strings.Repeat("lorem ipsum dolor sit amet ", 9)
